@@ -70,6 +70,7 @@ type Result struct {
 	ViolCount    int64
 	Inconclusive []string
 	Done         bool
+	Abandoned    bool // the worker stopped after a verdict that leaves it unusable (e.g. goroutines spinning inside the library)
 	HungAt       int64 // global case number, -1 if none
 	NextStart    int64
 }
@@ -197,6 +198,10 @@ func (c *Ctx) ViolateContinue(site, clause, trigger, detail string) {
 	c.Violate(site, clause, trigger, detail)
 	c.caseViol--
 }
+
+// AbandonProcess asks the worker to stop after the current case: a verdict was
+// reached, but goroutines that never return are still alive in this process.
+func (c *Ctx) AbandonProcess() { c.Res.Abandoned = true }
 
 // CaseViolations is the number of violations recorded in the current case.
 func (c *Ctx) CaseViolations() int { return c.caseViol }
